@@ -53,6 +53,10 @@ class World:
         self.ninv += 1
         before = len(read_log(self.log))
         tr = self.sc.path("trace%d" % self.ninv)
+        if not num_stalls and stalls is None and choices is None and seed % 5 == 0:
+            # one invocation in five is suspended for 5-30 simulated seconds at a seeded step (timers fire)
+            num_stalls = 1
+            self.stats["invocations_with_stall"] = self.stats.get("invocations_with_stall", 0) + 1
         res = run_plz(self.bindir, cwd or self.repo, args, seed, home or self.home, tr, policy=policy, choices=choices, stalls=stalls,
                       faults=faults, env_extra=env_extra, num_stalls=num_stalls, timeout=timeout)
         log = read_log(self.log)[before:]
